@@ -137,11 +137,20 @@ pub fn run_sync_case(case: &SyncCase, ctx: &RunCtx, full_query: bool) -> SyncRes
         w.ordered_reference_changes = case.mode == 0;
         w.no_double_delete = case.mode <= 1;
         r.labels.push(format!("mode:{}", case.mode));
+        // rows that changed room during the history
+        let mut moved_rows: BTreeSet<String> = BTreeSet::new();
         for op in &case.ops {
             let rows_before = w.rows.len();
+            let move_target = match op {
+                Op::Write { action: Action::Move { row, .. }, .. } if !w.rows.is_empty() => Some(w.rows[pick(*row, w.rows.len())].id.clone()),
+                _ => None,
+            };
             let info = w.apply(op).await;
             if !info.applied {
                 continue;
+            }
+            if let (Some(id), "move") = (move_target, info.kind) {
+                moved_rows.insert(id);
             }
             *r.counters.entry(format!("op:{}", info.kind)).or_insert(0) += 1;
             match &info.result {
@@ -422,9 +431,14 @@ pub fn run_sync_case(case: &SyncCase, ctx: &RunCtx, full_query: bool) -> SyncRes
                         let sa: BTreeSet<_> = content[0].edge_dels.iter().collect();
                         let sb: BTreeSet<_> = content[i].edge_dels.iter().collect();
                         for d in sa.symmetric_difference(&sb) {
-                            causes
-                                .entry(blind_name(&d.room, "edge-deletion-log"))
-                                .or_insert_with(|| format!("{:?}", d));
+                            let cause = if moved_rows.contains(&d.src) {
+                                // a reference belongs to the room of its source row: a deletion record of the room the
+                                // row has left is refused by the peers that already hold the moved row
+                                "reference-change-concurrent-with-move-of-its-source-row".to_string()
+                            } else {
+                                blind_name(&d.room, "edge-deletion-log")
+                            };
+                            causes.entry(cause).or_insert_with(|| format!("{:?}", d));
                         }
                     }
                     // live references
@@ -439,15 +453,19 @@ pub fn run_sync_case(case: &SyncCase, ctx: &RunCtx, full_query: bool) -> SyncRes
                                 .iter()
                                 .chain(raw[i].edges.iter())
                                 .find(|x| x.src == e.src && x.dest == e.dest && x.label == e.label)
-                                .map(|x| x.cdate);
+                                .map(|x| (x.cdate, x.key.clone()));
                             let cause = match (na, nb, cd) {
-                                (Some(a), Some(b), Some(c)) if a == b && c < a.mdate => {
+                                // the reference was added in a version of the row that lost against the stored one (or
+                                // tied with it: same millisecond, another author)
+                                (Some(a), Some(b), Some((c, k))) if a == b && (c < a.mdate || (c == a.mdate && k != a.key)) => {
                                     "reference-of-superseded-version".to_string()
                                 }
                                 (Some(a), Some(b), _) if a != b => continue, // follows from the node difference
                                 (None, _, _) | (_, None, _) => continue,     // source row differs
                                 _ => {
-                                    if tombs.contains_key(&e.src) || tombs.contains_key(&e.dest) {
+                                    if moved_rows.contains(&e.src) {
+                                        "reference-change-concurrent-with-move-of-its-source-row".to_string()
+                                    } else if tombs.contains_key(&e.src) || tombs.contains_key(&e.dest) {
                                         "reference-of-row-revived-after-deletion".to_string()
                                     } else if !(content[0].nodes.iter().any(|nn| nn.id == e.dest)
                                         && content[i].nodes.iter().any(|nn| nn.id == e.dest))
